@@ -311,7 +311,7 @@ fn c13_check(_ctx: &Ctx, c: &SeqCase) -> Report {
 pub fn properties() -> Vec<Property> {
   vec![Property {
     id: "C13",
-    rule: "cases = call histories of length <= 12 (thorough 20) over {subscribe_i, unsubscribe_i, connect, disconnect, source emits v, source completes / errors} with 3 subscribers on publish / ref_count / replay over a hot source, a cold synchronous source or a per-subscription cold source (directly or through map; publish over cold sources: connect again once the previous connection is over, subscribers at any time); oracle = per-subscriber traces, number of source subscriptions ever made, liveness of every source subscription at the end and at most one alive, all equal to the reference state machine; the Subscription returned by connect() reports is_subscribed() exactly while its source subscription is alive; non-trivial = a subscriber joins mid-stream, or a resubscribe after the count dropped to zero, or a synchronous source",
+    rule: "cases = call histories of length <= 12 (thorough 20) over {subscribe_i, unsubscribe_i, connect, disconnect, source emits v, source completes / errors} with 3 subscribers on publish / ref_count / replay over a hot source, a cold synchronous source or a per-subscription cold source (directly or through map; subscribers optionally through take(n), all of them or the first one only; publish over cold sources: connect again once the previous connection is over, subscribers at any time); oracle = per-subscriber traces, number of source subscriptions ever made, liveness of every source subscription at the end and at most one alive, all equal to the reference state machine; the Subscription returned by connect() reports is_subscribed() exactly while its source subscription is alive; non-trivial = a subscriber joins mid-stream, or a resubscribe after the count dropped to zero, or a synchronous source",
     assumptions: vec![
       "after the source's own terminal only unsubscribe (replay: also late subscribe; ref_count: also a new first subscriber, for whom the source is subscribed again) is generated; replay over a cold source keeps its subscriber count above zero until the source finished (re-running a cold source into the same history is unspecified)",
     ],
